@@ -314,3 +314,14 @@ pub fn c07_resend_with_confirmation_keeps_id_and_content() {
     std::mem::forget(s);
     witness!();
 }
+
+/// rotation state with a pending (key, public value) and no outstanding proposal, own id as given
+pub fn pending_state(own_id: u64, kbytes: &[u8; 32], cbytes: &[u8; 32]) -> RotationState {
+    let mut k: Key = SmallVec::new();
+    let mut i = 0;
+    while i < 32 {
+        k.push(kbytes[i]);
+        i += 1;
+    }
+    RotationState { confirmed: None, pending: Some((k, key_of(cbytes, 32))), proposed: None, message_id: own_id, timeout: false }
+}
